@@ -239,7 +239,7 @@ func scopes() map[string]*PropScope {
 	add(&PropScope{ID: "C04", Closure: true, Technique: "contract-based deductive verification: capacity-independence obligations of every decoder (no re-slicing of the input beyond len) + NewPacket contract, z3/cvc5",
 		Roots: decoderRoots,
 		Cfg: func(e *Engine, f *ssa.Function, root bool) *FnConfig {
-			return &FnConfig{Classes: classSet([]string{"cap", "post", "frame"}), InputData: true}
+			return &FnConfig{Classes: classSet([]string{"cap", "post", "frame", "assert"}), InputData: true}
 		},
 		NotCovered: []string{"pool interleavings: 'no two undisposed pooled packets share memory' rests on the assumed contract of sync.Pool"},
 	})
